@@ -169,6 +169,8 @@ void prop_c10(hz::Ctx &ctx) {
       {"lea", {"lea ", ", [", "]"}, {"r10", "r11"}}, {"paddb", {"paddb ", ", ", ""}, {"xmm1", "xmm9"}}, {"vpaddq", {"vpaddq ", ", ", ", ", ""}, {"ymm0", "ymm8", "ymm15"}},
       {"shlx", {"shlx ", ", ", ", ", ""}, {"rax", "rcx", "r8"}}, {"push", {"push ", ""}, {"r12"}}, {"movq", {"movq ", ", ", ""}, {"xmm3", "rax"}}, {"sete", {"sete ", ""}, {"al"}},
       {"cmp", {"cmp byte [", "], ", ""}, {"r13", "bl"}}, {"pxor", {"pxor ", ", ", ""}, {"mm1", "mm2"}},
+      {"lea", {"lea rax, [1*", "]"}, {"rcx"}}, {"lea", {"lea rax, [2*", "]"}, {"rdx"}}, {"mov", {"mov eax, [4*", "+8]"}, {"rsi"}}, {"add", {"add qword [8*", "-0x10], 1"}, {"r9"}}, {"mov", {"mov rax, [", "+", "]"}, {"rbx", "rcx"}},
+      {"vmovdqu", {"vmovdqu ymm1, [1*", "+0x20]"}, {"r10"}}, {"jmp", {"jmp [", "+", "*8]"}, {"rax", "rdi"}}, {"mov", {"mov [", "], ", ""}, {"eax", "ecx"}}, {"lea", {"lea rax, [1*", "]"}, {"ecx"}},
     };
     for (auto &t : T) for (size_t pos = 0; pos < t.regs.size(); pos++) {
       const std::string &r = t.regs[pos];
@@ -191,7 +193,10 @@ void prop_c10(hz::Ctx &ctx) {
   }
   // ---- (4) invalid memory expressions ----
   {
-    static const char *hosts[][2] = {{"mov rax, ", ""}, {"add dword ", ", 5"}, {"lea r15, ", ""}, {"vmovdqu ymm1, ", ""}, {"paddq xmm2, ", ""}, {"jmp ", ""}, {"inc qword ", ""}, {"shlx rax, ", ", rbx"}};
+    static const char *hosts[][2] = {{"mov rax, ", ""}, {"add dword ", ", 5"}, {"lea r15, ", ""}, {"vmovdqu ymm1, ", ""}, {"paddq xmm2, ", ""}, {"jmp ", ""}, {"inc qword ", ""}, {"shlx rax, ", ", rbx"},
+      {"mov qword ", ", 0x123456789"}, {"mov qword ", ", 0x7fffffff"}, {"mov byte ", ", 1"}, {"mov word ", ", 0x1234"}, {"test dword ", ", 0x80000000"}, {"cmp qword ", ", -1"}, {"imul rax, ", ", 100000"}, {"shl qword ", ", 1"}, {"sar dword ", ", cl"},
+      {"push qword ", ""}, {"call ", ""}, {"call far qword ", ""}, {"movzx eax, byte ", ""}, {"cmovne rcx, ", ""}, {"sete byte ", ""}, {"xchg rax, ", ""}, {"prefetcht0 ", ""}, {"clflush ", ""}, {"adcx rax, ", ""}, {"mulx rax, rbx, ", ""}, {"rorx rax, ", ", 3"},
+      {"movd xmm1, ", ""}, {"movq ", ", xmm2"}, {"movntq ", ", mm1"}, {"pxor mm0, ", ""}, {"vpaddq ymm1, ymm2, ", ""}, {"vperm2i128 ymm1, ymm2, ", ", 1"}, {"vmovupd ", ", xmm3"}, {"shld ", ", rax, 5"}, {"mov ", ", cl"}};
     std::vector<std::pair<std::string, std::string>> exprs;
     for (int sc : {0, 3, 5, 6, 7, 9, 10, 12, 16, 32, 64}) { std::string s = std::to_string(sc);
       exprs.push_back({"bad-scale", "[rax+rbx*" + s + "]"}); exprs.push_back({"bad-scale", "[rax+" + s + "*rbx]"}); exprs.push_back({"bad-scale", "[" + s + "*rcx]"}); exprs.push_back({"bad-scale", "[rax+r9*" + s + "+8]"}); exprs.push_back({"bad-scale", "[" + s + "*r10-0x10]"}); exprs.push_back({"bad-scale", "[eax+ebx*" + s + "]"}); }
@@ -215,6 +220,22 @@ void prop_c10(hz::Ctx &ctx) {
       { RejCase c; c.group = "empty-operand"; c.mn = std::string(l).substr(0, std::string(l).find(' ')); c.form = l; c.bad = l; run_rej(ctx, c, rng, allp); }
     for (auto l : {"add rax, 5, rbx", "mov rax, 1, 2", "mov rax, 0x10, rcx", "push 5, rax", "imul rax, 5, rbx", "jmp 4, rax", "add rax, 5, 6", "xabort 1, 2", "shl rax, 1, 2", "mov dword [rax], 5, 6", "test al, 1, bl", "psrldq xmm1, 3, xmm2", "rorx rax, 5, rbx", "cmp rax, -1, 0"})
       { RejCase c; c.group = "operand-after-immediate"; c.mn = std::string(l).substr(0, std::string(l).find(' ')); c.form = l; c.bad = l; run_rej(ctx, c, rng, allp); }
+  }
+  // ---- (5b) the same defects pushed to the end of the line filter's window (filtered length 95..103)
+  {
+    for (int target = 95; target <= 103; target++) for (int kind = 0; kind < 6; kind++) for (int host = 0; host < 3; host++) {
+      // a valid instruction whose filtered text is lengthened with leading zeros of its immediate
+      std::string head = host == 0 ? "mov rax, 0x" : host == 1 ? "add qword [rbx+rcx*8+0x10], 0x" : "vperm2i128 ymm1, ymm2, ymm3, 0x";
+      size_t filtered = 0; for (char ch : head) if (ch != ' ' || filtered == 3 || (host == 1 && filtered == 3) || (host == 2 && filtered == 10)) filtered++;
+      // filtered length counts every non-blank plus the single blank after the mnemonic
+      filtered = 0; bool seen_space = false; for (char ch : head) { if (ch == ' ') { if (!seen_space) { filtered++; seen_space = true; } } else filtered++; }
+      if ((size_t)target <= filtered + 1) continue;
+      std::string line = head + std::string(target - filtered - 1, '0') + "5";
+      static const char *TAIL[] = {", rbx", " , rbx", "\x80", " \xff", ", 7", "\t,rcx"};
+      line += TAIL[kind];
+      RejCase c; c.group = kind == 2 || kind == 3 ? "non-ascii-byte" : "operand-after-immediate"; c.mn = head.substr(0, head.find(' ')); c.form = "at" + std::to_string(target) + "/" + std::to_string(kind); c.bad = line;
+      run_rej(ctx, c, rng, allp);
+    }
   }
   // ---- (6) a byte outside printable ASCII (0x7f..0xff) at every position of an instruction text ----
   {
